@@ -510,6 +510,18 @@ class W09:
                     self.do_scan(op[1], op[2], op[3])
                 elif k == "scan_node":
                     self.do_scan(op[1], op[2], op[3], via_node=True)
+                elif k == "new_other":
+                    # a registry for some other configuration is built (and used once): pure history
+                    from multidecoder.multidecoder import Multidecoder
+                    from multidecoder.registry import build_registry
+
+                    other = Multidecoder(build_registry(self.kwdir, include=op[1], exclude=op[2]))
+                    if self.corpus:
+                        try:
+                            other.scan(self.corpus[0], 2)
+                        except Exception:  # noqa: BLE001
+                            pass
+                    self.counters["other_config_builds"] = self.counters.get("other_config_builds", 0) + 1
                 elif k == "scan_fresh":
                     self.do_scan(op[1], op[2], op[3], fresh=True)
                 elif k == "set_config":
@@ -790,7 +802,8 @@ class W18:
                 importlib.import_module("multidecoder.decoders." + op[1])
             elif k == "get_keywords":
                 custom = op[1]
-                kws = R.get_keywords(self.kwdir) if custom else R.get_keywords()
+                explicit = len(op) > 2 and op[2]  # the documented default value, passed explicitly
+                kws = R.get_keywords(self.kwdir) if custom else (R.get_keywords("") if explicit else R.get_keywords())
                 self.check_registry(kws, custom, None, None, f"get_keywords(custom={custom})", filtered=False)
                 _, dec = self.split(list(kws))
                 if dec:
@@ -819,6 +832,8 @@ class W18:
                     kwargs["exclude"] = exc
                 if custom:
                     reg = R.build_registry(self.kwdir, **kwargs)
+                elif len(op) > 4 and op[4]:
+                    reg = R.build_registry("", **kwargs)  # the documented default value, passed explicitly
                 else:
                     reg = R.build_registry(**kwargs)
                 self.check_registry(reg, custom, inc_l, exc_l, f"build_registry(custom={custom})")
@@ -1038,6 +1053,28 @@ class W20:
             self.viol("equal_trees_compare_unequal", f"{where}: field-wise identical trees compare unequal")
         if not model.parent_links_ok(back, None):
             self.viol("roundtrip_parent_links", f"{where}: a child's parent is not the node that lists it (or the root has a parent)")
+        # a consumer that keeps only some descendants (hits = [n for n in tree if ...]) still
+        # reaches every ancestor through .parent
+        kept = []
+
+        def walk(n, depth):
+            for c in n.children:
+                kept.append((c, depth + 1))
+                walk(c, depth + 1)
+
+        try:
+            walk(json_to_tree(text), 0)
+        except Exception:  # noqa: BLE001 - reported above
+            kept = []
+        gc.collect()
+        for n, depth in kept:
+            k, cur = 0, n
+            while cur.parent is not None and k <= depth + 1:
+                cur = cur.parent
+                k += 1
+            if k != depth:
+                self.viol("roundtrip_parent_links", f"{where}: after the caller dropped the root, a node at depth {depth} reaches only {k} ancestors through .parent")
+                break
         return back
 
     def check_json(self, out, tree, ctree, run, enc="utf-8"):
